@@ -56,8 +56,8 @@ ASSUMPTIONS = [
     'linked statements say something about the converter only for '
     'transformations with exactly orthonormal rows (C04\'s law); '
     'near-orthonormal input normalised by adjust_matrix is outside',
-    'LAT: one or several lattice cells developed before the FILL loop; '
-    'the per-element description is stated for one lattice cell',
+    'LAT: one or several lattice cells developed before the FILL loop '
+    '(distinct, present, elements with non-empty transformations)',
 ]
 HEADER = ('From Coq Require Import List ZArith Bool.\n'
           'From T4V Require Import C05.Model C05.Exec.\n'
@@ -88,7 +88,8 @@ THEOREMS = ['C05_pot_transform_compl_untouched', 'C05_pot_transform_den',
             'C05_pipeline_with_lattice_linked2',
             'C05_lattice_elements_accepted_linked',
             'C05_located_through_lattice_linked2',
-            'C05_precedence_located_linked_spellings']
+            'C05_precedence_located_linked_spellings',
+            'C05_lat_phase_elems_linked']
 
 
 def tie_case_summary(case):
@@ -315,22 +316,46 @@ TIE_UNREACHABLE = [
 
 
 def start_coverage():
-    import c02_cov
-    from t4_geom_convert.Kernel.Volume.CellConversion import CellConversion
-    from t4_geom_convert.Kernel.Volume.ByUniverse import by_universe
-    from t4_geom_convert.Kernel.Volume.CellMCNP import CellMCNP
-    from t4_geom_convert.Kernel.Volume import CellInlining as inl
-    from t4_geom_convert.Kernel.FileHandlers.Parser.ParseMCNPCell import \
-        ParseMCNPCell
-    funcs = [CellConversion.pot_fill, CellConversion.pot_transform,
-             CellConversion.cell_transform, CellConversion.apply_trcl,
-             by_universe, CellMCNP.copy, inl.find_occurrences,
-             inl.extract_subcells, inl.compute_inlining_scores,
-             inl.geometry_size, inl.inline_cells, inl.inline_cells_worker,
-             ParseMCNPCell.parse_fill_kw, ParseMCNPCell.parse_trcl_kw,
-             ParseMCNPCell.parse_keywords, ParseMCNPCell.parse_one_cell_worker,
-             ParseMCNPCell.to_fillid]
-    return c02_cov.LineCov(funcs)
+    '''Line coverage of the anchored functions during the ties (information
+    only).  The functions are looked up by name and whatever a rewrite of /repo
+    removed or renamed is skipped and listed; nothing here may raise.'''
+    try:
+        import importlib
+        import c02_cov
+        wanted = [
+            ('t4_geom_convert.Kernel.Volume.CellConversion', 'CellConversion',
+             ['pot_fill', 'pot_transform', 'cell_transform', 'apply_trcl']),
+            ('t4_geom_convert.Kernel.Volume.ByUniverse', None, ['by_universe']),
+            ('t4_geom_convert.Kernel.Volume.CellMCNP', 'CellMCNP', ['copy']),
+            ('t4_geom_convert.Kernel.Volume.CellInlining', None,
+             ['find_occurrences', 'extract_subcells', 'compute_inlining_scores',
+              'geometry_size', 'inline_cells', 'inline_cells_worker']),
+            ('t4_geom_convert.Kernel.FileHandlers.Parser.ParseMCNPCell',
+             'ParseMCNPCell',
+             ['parse_fill_kw', 'parse_trcl_kw', 'parse_keywords',
+              'parse_one_cell_worker', 'to_fillid']),
+        ]
+        funcs, missing = [], []
+        for modname, clsname, names in wanted:
+            try:
+                holder = importlib.import_module(modname)
+                if clsname is not None:
+                    holder = getattr(holder, clsname)
+            except Exception as exc:          # pylint: disable=broad-except
+                missing.append(f'{modname}: {exc}')
+                continue
+            for name in names:
+                func = getattr(holder, name, None)
+                if func is None or not hasattr(getattr(func, '__func__', func),
+                                               '__code__'):
+                    missing.append(f'{clsname or modname}.{name}')
+                else:
+                    funcs.append(func)
+        cov = c02_cov.LineCov(funcs)
+        cov.c05_missing = missing
+        return cov
+    except Exception:                          # pylint: disable=broad-except
+        return None
 
 
 class traced:
@@ -343,7 +368,8 @@ class traced:
 
     def __enter__(self):
         import sys
-        sys.settrace(self.cov._global)
+        if self.cov is not None:
+            sys.settrace(self.cov._global)
 
     def __exit__(self, *exc):
         import sys
@@ -352,19 +378,30 @@ class traced:
 
 
 def finish_coverage(res, cov):
-    total, missing = cov.missing(TIE_UNREACHABLE)
-    res.obligation('coverage: the tied calls execute every line of the '
-                   f'anchored functions they can reach ({total} lines of '
-                   f'{len(cov.codes)} code objects)', not missing,
-                   f'never executed: {missing[:6]}')
-    res.extra['anchored_lines'] = total
-    if missing:
-        res.violation('harness-error',
-                      'the tie generators no longer reach these lines of the '
-                      f'anchored code: {missing[:8]}',
-                      {'theorem_or_correspondence': 'coverage',
-                       'input': {'lines': [list(m) for m in missing[:20]]}},
-                      found_input=False)
+    '''Information only: never a verdict, never an exception.'''
+    try:
+        if cov is None:
+            res.extra['line_coverage'] = 'coverage tracer unavailable'
+            return
+        total, missing = cov.missing(TIE_UNREACHABLE)
+        res.obligation('coverage: the tied calls execute every line of the '
+                       f'anchored functions they can reach ({total} lines of '
+                       f'{len(cov.codes)} code objects)', not missing,
+                       f'never executed: {missing[:6]}')
+        res.extra['anchored_lines'] = total
+        if getattr(cov, 'c05_missing', None):
+            res.extra['line_coverage_skipped'] = [
+                f'skipped: helper {name} not present'
+                for name in cov.c05_missing]
+        if missing:
+            res.violation('harness-error',
+                          'the tie generators no longer reach these lines of '
+                          f'the anchored code: {missing[:8]}',
+                          {'theorem_or_correspondence': 'coverage',
+                           'input': {'lines': [list(m) for m in missing[:20]]}},
+                          found_input=False)
+    except Exception as exc:                   # pylint: disable=broad-except
+        res.extra['line_coverage'] = f'coverage pass failed: {exc}'
 
 
 def sweep(res, rng, n_decks, n_points, tag):
@@ -608,12 +645,16 @@ def run(res, tier, seed, proofs_ok):
 
     # 2b. tie of parse_fill_kw / parse_trcl_kw (which tuple a keyword yields:
     #     the precedence rule of pot_fill hangs on () vs a 12-tuple)
+    skipped_helpers = set()
     kw_cases, kw_meta = [], []
     for i in range(400 if tier == 'quick' else 4000):
         case = c05_kw.gen_case(rng)
         try:
             with traced(cov):
                 outcome = c05_kw.run_impl(case)
+        except c05_kw.HelperMissing as exc:
+            skipped_helpers.add(str(exc))
+            continue
         except Exception as exc:
             res.violation(
                 'impl-violation',
@@ -669,11 +710,20 @@ def run(res, tier, seed, proofs_ok):
     # 2c. whole cell cards: parse_one_cell_worker -> universe, fillid, filltr,
     #     trcl of the CellMCNP (Model.cell_of_keywords)
     ck_cases, ck_meta = [], []
+    n_public, public_bad = 0, []
     for i in range(300 if tier == 'quick' else 3000):
         case = c05_kw.gen_cell_case(rng)
+        # every fifth card (all of them when the helper-level entry is gone)
+        # also goes through the public route: deck text -> MIP parser ->
+        # ParseMCNPCell(...).parse(), against an independent reading
+        helper_gone = False
+        outcome = None
         try:
             with traced(cov):
                 outcome = c05_kw.run_cell_impl(case)
+        except c05_kw.HelperMissing as exc:
+            skipped_helpers.add(str(exc))
+            helper_gone = True
         except Exception as exc:
             res.violation(
                 'impl-violation',
@@ -681,6 +731,16 @@ def run(res, tier, seed, proofs_ok):
                 {'input': {'cell_kw_case': case},
                  'theorem_or_correspondence': 'tie:cell_kw'},
                 found_input=True)
+            continue
+        if helper_gone or i % 5 == 0:
+            n_public += 1
+            try:
+                diff = c05_kw.public_cell_check(case)
+            except Exception as exc:          # pylint: disable=broad-except
+                diff = f'{type(exc).__name__}: {exc}'
+            if diff is not None:
+                public_bad.append((case, diff))
+        if helper_gone:
             continue
         ck_cases.append(c05_kw.coq_cell_case(case, outcome))
         ck_meta.append((case, outcome))
@@ -708,6 +768,20 @@ def run(res, tier, seed, proofs_ok):
                       + err[:300], {'theorem_or_correspondence': 'tie:cell_kw',
                                     'error': err}, found_input=False)
     tie_broken = tie_broken or bool(cbad or cerrs)
+    res.obligation(f'tie:cell_kw_public ({n_public} cell cards through the '
+                   'public route ParseMCNPCell(parser).parse(): universe, '
+                   'fillid, fill transformation, TRCL = what is written)',
+                   not public_bad, f'{len(public_bad)} differences')
+    for case, diff in public_bad[:6]:
+        res.violation(
+            'impl-violation',
+            f'cell card `1 1 -1.0 -1 {case["option"]}`: {diff}',
+            {'input': {'cell_kw_case': case}, 'observed': diff,
+             'theorem_or_correspondence': 'tie:cell_kw_public'},
+            found_input=True)
+    if skipped_helpers:
+        res.extra['skipped_helper_ties'] = [f'skipped: {h}' for h in
+                                            sorted(skipped_helpers)]
 
     finish_coverage(res, cov)
 
